@@ -998,6 +998,8 @@ class Molecule(nx.Graph):
         interactions list separately which is not a part of
         the graph and hence does not get deleted.
         """
+        # `nodes` can be a one-shot iterator, and we need it twice.
+        nodes = list(nodes)
         super().remove_nodes_from(nodes)
         self.max_node = None
         for node in nodes:
